@@ -21,7 +21,7 @@
    roots and wide reduction of the fiat-crypto generated fields (compared with Zp at run time). *)
 From Coq Require Import List NArith ZArith Bool.
 Import ListNotations.
-Require Import V.base.Fld V.gen.Formulas V.model.CurveParams V.model.Curve V.model.ScalarMul.
+Require Import V.base.Fld V.gen.Formulas V.gen.MsmWindow V.model.CurveParams V.model.Curve V.model.ScalarMul.
 From Coq Require Import Znumtheory.
 Require Import V.proofs.Curve_proofs V.proofs.ScalarMul_proofs V.proofs.F7_instance V.proofs.ZpField_proofs.
 
@@ -304,6 +304,15 @@ Theorem C14_msm_correct :
   if Nat.eqb (length ps) (length ss) then Some (wsumf zero add le_value ps ss) else None.
 Proof. exact @msm_correct. Qed.
 Print Assumptions C14_msm_correct.
+
+(* the window extraction closure of MultiScalarMulLowLevel, REGENERATED from mul.go with the Go
+   typing of every subexpression (gen/MsmWindow.v: byte-typed arithmetic wraps modulo 256), is the
+   get_window of the model about which C14_msm_correct is stated — for every window width (the
+   code uses widths 2..16), every start bit and every byte string *)
+Theorem C14_getWindow_generated_eq_model : forall (w : N) (b : list N) (start : N),
+  getWindow w b start = get_window b start w.
+Proof. exact getWindow_generated_eq_model. Qed.
+Print Assumptions C14_getWindow_generated_eq_model.
 
 (* the bucket path alone, for every vector length and every window width w > 0 *)
 Theorem C14_msm_buckets_correct :
